@@ -26,6 +26,7 @@ use serde_json::{json, Value};
 use crate::{
 	harness::{hash_str, Recorder, Scenario, Tier},
 	rng::Rng,
+	proc::Scratch,
 	sut::{check_quiescent, error_class, stdlib_with_trace, val_to_json},
 };
 
@@ -65,6 +66,11 @@ pub enum Content {
 }
 impl Content {
 	pub fn render(&self) -> Vec<u8> {
+		self.render_with("")
+	}
+	/// `prefix` is put in front of absolute spellings (real-disk mode: the scratch root)
+	pub fn render_with(&self, prefix: &str) -> Vec<u8> {
+		let fix = |sp: &str| if sp.starts_with('/') { format!("{prefix}{sp}") } else { sp.to_owned() };
 		match self {
 			Content::Raw { bytes } => bytes.clone(),
 			Content::Code {
@@ -75,7 +81,7 @@ impl Content {
 			} => {
 				let mut s = format!("std.trace(\"eval:{cid}\", ");
 				for sp in strict {
-					s.push_str(&format!("(import '{sp}') + "));
+					s.push_str(&format!("(import '{}') + ", fix(sp)));
 				}
 				s.push_str(&format!("{{ id: \"{cid}\", payload: {payload}"));
 				for l in lazy {
@@ -84,7 +90,7 @@ impl Content {
 						Kind::Str => "importstr",
 						Kind::Bin => "importbin",
 					};
-					s.push_str(&format!(", {}: {kw} '{}'", l.field, l.spelling));
+					s.push_str(&format!(", {}: {kw} '{}'", l.field, fix(&l.spelling)));
 				}
 				s.push_str(" })\n");
 				s.into_bytes()
@@ -171,23 +177,33 @@ pub struct SimFs {
 	pub aliases: BTreeMap<String, String>,
 }
 
-pub fn norm_join(dir: &str, rel: &str) -> String {
+/// Physical path resolution as the OS does it: every intermediate component - also one that is
+/// later cancelled by `..` - must be an existing directory. `None` = no such path.
+pub fn norm_join(dir: &str, rel: &str) -> Option<String> {
 	let full = if rel.starts_with('/') {
 		rel.to_owned()
 	} else {
 		format!("{dir}/{rel}")
 	};
+	let is_dir = |parts: &[&str]| parts.is_empty() || DIRS.contains(&format!("/{}", parts.join("/")).as_str());
+	let comps: Vec<&str> = full.split('/').filter(|c| !c.is_empty() && *c != ".").collect();
 	let mut out: Vec<&str> = Vec::new();
-	for c in full.split('/') {
-		match c {
-			"" | "." => {}
-			".." => {
-				out.pop();
+	for (i, c) in comps.iter().enumerate() {
+		if *c == ".." {
+			if !is_dir(&out) {
+				return None;
 			}
-			c => out.push(c),
+			out.pop();
+		} else {
+			// descending into `out` requires it to be a directory
+			if !is_dir(&out) {
+				return None;
+			}
+			out.push(c);
 		}
+		let _ = i;
 	}
-	format!("/{}", out.join("/"))
+	Some(format!("/{}", out.join("/")))
 }
 pub fn parent(path: &str) -> String {
 	match path.rfind('/') {
@@ -201,11 +217,16 @@ pub enum Lookup {
 	File,
 	Dir,
 	Missing,
+	/// a symlink pointing at itself: the OS reports an error other than "not found"
+	Loop,
 }
 impl SimFs {
 	/// Follows one level of alias; returns canonical path and what is there
 	pub fn lookup(&self, path: &str) -> (String, Lookup) {
 		let canon = self.aliases.get(path).cloned().unwrap_or_else(|| path.to_owned());
+		if self.aliases.get(path).is_some_and(|t| t == path) {
+			return (canon, Lookup::Loop);
+		}
 		if self.files.contains_key(&canon) {
 			(canon, Lookup::File)
 		} else if DIRS.contains(&canon.as_str()) {
@@ -335,10 +356,13 @@ impl Disk {
 		let mut dirs: Vec<&str> = vec![dir];
 		dirs.extend(libs.iter().map(String::as_str));
 		for d in dirs {
-			let p = norm_join(d, rel);
+			let Some(p) = norm_join(d, rel) else {
+				continue;
+			};
 			match self.fs.lookup(&p) {
 				(canon, Lookup::File) => return Ok(canon),
 				(_, Lookup::Dir) => return Err(Class::Directory),
+				(_, Lookup::Loop) => return Err(Class::Injected),
 				(_, Lookup::Missing) => {}
 			}
 		}
@@ -392,6 +416,8 @@ pub struct Shared {
 	pub disk: Disk,
 	pub rendered: Vec<Vec<u8>>,
 	pub log: Vec<LogEv>,
+	/// real-disk mode: canonical scratch root; simulated paths are real paths minus this prefix
+	pub root: Option<String>,
 }
 
 pub struct SimResolver {
@@ -466,6 +492,136 @@ impl ImportResolver for SimResolver {
 			Err(Class::Vanished) => Err(ErrorKind::ResolvedFileNotFound(resolved.clone()).into()),
 			Err(_) => Err(ErrorKind::ImportIo("injected load failure".to_owned()).into()),
 		}
+	}
+}
+
+/// M2: the real `FileImportResolver` over a real scratch directory, wrapped by a recording and
+/// fault-injecting pass-through. The simulated fs in `Shared` mirrors the real disk.
+pub struct RealResolver {
+	pub state: usize,
+	pub inner: jrsonnet_evaluator::FileImportResolver,
+	pub shared: Rc<RefCell<Shared>>,
+}
+impl Trace for RealResolver {
+	fn is_type_tracked() -> bool {
+		false
+	}
+}
+// SAFETY: holds no Cc
+unsafe impl Acyclic for RealResolver {}
+
+fn strip_root(root: &str, p: &str) -> String {
+	p.strip_prefix(root).map_or_else(|| p.to_owned(), |r| if r.is_empty() { "/".to_owned() } else { r.to_owned() })
+}
+
+impl ImportResolver for RealResolver {
+	fn resolve_from(&self, from: &SourcePath, path: &dyn AsPathLike) -> JrResult<SourcePath> {
+		let root = self.shared.borrow().root.clone().expect("real mode");
+		let dir_real = if let Some(f) = from.downcast_ref::<SourceFile>() {
+			parent(&f.path().to_string_lossy())
+		} else if let Some(d) = from.downcast_ref::<SourceDirectory>() {
+			d.path().to_string_lossy().into_owned()
+		} else {
+			panic!("jrsim: real-disk runs never resolve from the process cwd: {from:?}")
+		};
+		let dir = strip_root(&root, &dir_real);
+		let rel_real = match path.as_path() {
+			ResolvePath::Str(s) => s.to_owned(),
+			ResolvePath::Path(p) => p.to_string_lossy().into_owned(),
+		};
+		let rel = strip_root(&root, &rel_real);
+		let fault = {
+			let mut sh = self.shared.borrow_mut();
+			let f = sh.disk.faults.take_resolve(&dir, &rel);
+			if let Some(k) = f {
+				sh.disk.fired.push(k);
+			}
+			f
+		};
+		let (out, res): (Result<String, Class>, JrResult<SourcePath>) = if fault.is_some() {
+			(
+				Err(Class::Injected),
+				Err(ErrorKind::ImportIo("injected resolve failure".to_owned()).into()),
+			)
+		} else {
+			match self.inner.resolve_from(from, path) {
+				Ok(sp) => (Ok(strip_root(&root, &path_of(&sp))), Ok(sp)),
+				Err(e) => {
+					let c = match error_class(&e) {
+						"NotFound" => Class::NotFound,
+						"Directory" => Class::Directory,
+						_ => Class::Injected,
+					};
+					(Err(c), Err(e))
+				}
+			}
+		};
+		self.shared.borrow_mut().log.push(LogEv::Resolve {
+			state: self.state,
+			dir,
+			rel,
+			out,
+		});
+		res
+	}
+	fn load_file_contents(&self, resolved: &SourcePath) -> JrResult<Vec<u8>> {
+		if let Some(f) = resolved.downcast_ref::<jrsonnet_ir::SourceFifo>() {
+			return Ok(f.1.to_vec());
+		}
+		let root = self.shared.borrow().root.clone().expect("real mode");
+		let real = path_of(resolved);
+		let path = strip_root(&root, &real);
+		let mut sh = self.shared.borrow_mut();
+		let fault = sh.disk.faults.take_load(&path);
+		if let Some(f) = &fault {
+			let sticky = sh.disk.faults.sticky.contains(f);
+			sh.disk.fired.push(match (f, sticky) {
+				(Fault::LoadErr { .. }, true) => "sticky-load-error",
+				(_, true) => "sticky-corrupt-read",
+				(f, false) => f.kind_name(),
+			});
+		}
+		let content_now = sh.disk.fs.files.get(&path).copied();
+		let (logged, res): (Result<(usize, bool), Class>, JrResult<Vec<u8>>) = match fault {
+			Some(Fault::LoadErr { .. }) => (
+				Err(Class::Injected),
+				Err(ErrorKind::ImportIo("injected load failure".to_owned()).into()),
+			),
+			Some(Fault::LoadVanish { .. }) => {
+				// the file really disappears between resolve and load
+				let _ = std::fs::remove_file(&real);
+				sh.disk.fs.files.remove(&path);
+				let r = self.inner.load_file_contents(resolved);
+				(Err(Class::Vanished), r.and_then(|_| Err(ErrorKind::ImportIo("jrsim: vanished file was still readable".to_owned()).into())))
+			}
+			Some(Fault::LoadBad { .. }) => match content_now {
+				Some(c) => (Ok((c, true)), Ok(BAD_BYTES.to_vec())),
+				None => (Err(Class::Vanished), self.inner.load_file_contents(resolved)),
+			},
+			Some(Fault::MutateAfterLoad { content: new, .. }) => {
+				let r = self.inner.load_file_contents(resolved);
+				if r.is_ok() {
+					let bytes = sh.rendered[new].clone();
+					let _ = std::fs::write(&real, bytes);
+					sh.disk.fs.files.insert(path.clone(), new);
+				}
+				(content_now.map(|c| (c, false)).ok_or(Class::Vanished), r)
+			}
+			_ => {
+				let r = self.inner.load_file_contents(resolved);
+				match (&r, content_now) {
+					(Ok(_), Some(c)) => (Ok((c, false)), r),
+					(Ok(_), None) => (Err(Class::Vanished), r),
+					(Err(_), _) => (Err(Class::Vanished), r),
+				}
+			}
+		};
+		sh.log.push(LogEv::Load {
+			state: self.state,
+			path,
+			out: logged,
+		});
+		res
 	}
 }
 
@@ -676,6 +832,18 @@ struct Live {
 	traces: Rc<RefCell<Vec<String>>>,
 }
 
+/// Values in logs: byte arrays are shown as text so that run-specific paths inside file
+/// contents can be scrubbed (the comparison itself is on the real value)
+fn show(v: &Value) -> String {
+	if let Value::Array(a) = v {
+		if !a.is_empty() && a.iter().all(|x| x.as_u64().is_some_and(|n| n < 256)) {
+			let bytes: Vec<u8> = a.iter().map(|x| x.as_u64().unwrap_or(0) as u8).collect();
+			return format!("bytes{:?}", String::from_utf8_lossy(&bytes));
+		}
+	}
+	v.to_string()
+}
+
 fn snippet_for(e: &Entry) -> String {
 	let kw = match e.kind {
 		Kind::Code => "import",
@@ -718,8 +886,30 @@ fn project(mut v: Val, e: &Entry) -> JrResult<Value> {
 	}
 }
 
-fn run_entry(state: &State, e: &Entry) -> JrResult<Value> {
+fn run_entry(state: &State, e: &Entry, root: Option<&str>) -> JrResult<Value> {
 	let _g = state.enter();
+	if let Some(root) = root {
+		// real-disk mode never resolves relative to the process cwd: always the Rust API from /w
+		let from = SourcePath::new(SourceDirectory::new(PathBuf::from(format!("{root}{CWD}"))));
+		let spelling = if e.spelling.starts_with('/') {
+			format!("{root}{}", e.spelling)
+		} else {
+			e.spelling.clone()
+		};
+		let v = match e.kind {
+			Kind::Code => state.import_from(&from, spelling.as_str())?,
+			Kind::Str => {
+				let p = state.resolve_from(&from, &spelling.as_str())?;
+				Val::string(state.import_resolved_str(p)?)
+			}
+			Kind::Bin => {
+				let p = state.resolve_from(&from, &spelling.as_str())?;
+				let b = state.import_resolved_bin(p)?;
+				Val::Arr(jrsonnet_evaluator::val::ArrValue::bytes(b))
+			}
+		};
+		return project(v, e);
+	}
 	match e.via {
 		Via::Snippet => {
 			let v = state.evaluate_snippet("<op>", snippet_for(e))?;
@@ -775,14 +965,41 @@ fn file_id_of(contents: &[Content], loaded: &BTreeMap<String, Loaded>, path: &st
 
 pub struct C07M1;
 
+/// Materialise the simulated world under a real scratch directory (files, directories, symlinks).
+pub fn materialise(root: &str, fs: &SimFs, rendered: &[Vec<u8>]) {
+	for d in DIRS {
+		std::fs::create_dir_all(format!("{root}{d}")).expect("create world dir");
+	}
+	for (p, c) in &fs.files {
+		if *c < rendered.len() {
+			std::fs::write(format!("{root}{p}"), &rendered[*c]).expect("write world file");
+		}
+	}
+	for (a, t) in &fs.aliases {
+		let _ = std::os::unix::fs::symlink(format!("{root}{t}"), format!("{root}{a}"));
+	}
+}
+
 impl C07M1 {
-	fn exec(plan: &Plan, rec: &mut Recorder) {
+	fn exec(plan: &Plan, rec: &mut Recorder, real: bool) {
 		jrsonnet_interner::verif::set_hash_salt(plan.salt);
-		let rendered: Vec<Vec<u8>> = plan.contents.iter().map(Content::render).collect();
+		let scratch = if real { Some(Scratch::new()) } else { None };
+		let root: Option<String> = scratch.as_ref().map(|s| {
+			std::fs::canonicalize(s.path())
+				.expect("canonical scratch")
+				.to_string_lossy()
+				.into_owned()
+		});
+		let prefix = root.clone().unwrap_or_default();
+		rec.scrub = root.clone();
+		let rendered: Vec<Vec<u8>> = plan.contents.iter().map(|c| c.render_with(&prefix)).collect();
 		let fs = SimFs {
 			files: plan.files.clone(),
 			aliases: plan.aliases.clone(),
 		};
+		if let Some(r) = &root {
+			materialise(r, &fs, &rendered);
+		}
 		let shared = Rc::new(RefCell::new(Shared {
 			disk: Disk {
 				fs: fs.clone(),
@@ -790,6 +1007,7 @@ impl C07M1 {
 			},
 			rendered: rendered.clone(),
 			log: Vec::new(),
+			root: root.clone(),
 		}));
 		let mut model_disk = Disk {
 			fs,
@@ -815,12 +1033,22 @@ impl C07M1 {
 				Op::NewState { state, libs } => {
 					let traces = Rc::new(RefCell::new(Vec::new()));
 					let mut b = State::builder();
-					b.import_resolver(SimResolver {
-						state: *state,
-						libs: libs.clone(),
-						shared: shared.clone(),
-					})
-					.context_initializer(stdlib_with_trace(traces.clone()));
+					if let Some(r) = &root {
+						b.import_resolver(RealResolver {
+							state: *state,
+							inner: jrsonnet_evaluator::FileImportResolver::new(
+								libs.iter().map(|l| PathBuf::from(format!("{r}{l}"))).collect(),
+							),
+							shared: shared.clone(),
+						});
+					} else {
+						b.import_resolver(SimResolver {
+							state: *state,
+							libs: libs.clone(),
+							shared: shared.clone(),
+						});
+					}
+					b.context_initializer(stdlib_with_trace(traces.clone()));
 					live.insert(
 						*state,
 						Live {
@@ -843,12 +1071,25 @@ impl C07M1 {
 					if *content < plan.contents.len() {
 						shared.borrow_mut().disk.fs.files.insert(path.clone(), *content);
 						model_disk.fs.files.insert(path.clone(), *content);
+						if let Some(r) = &root {
+							// a real file replaces whatever was there (also a symlink of that name)
+							let real_path = format!("{r}{path}");
+							if shared.borrow().disk.fs.aliases.contains_key(path) {
+								let _ = std::fs::remove_file(&real_path);
+								shared.borrow_mut().disk.fs.aliases.remove(path);
+								model_disk.fs.aliases.remove(path);
+							}
+							std::fs::write(&real_path, &rendered[*content]).expect("write file");
+						}
 						rec.event(format!("op{opi} write {path} content={content}"));
 					}
 				}
 				Op::Remove { path } => {
 					shared.borrow_mut().disk.fs.files.remove(path);
 					model_disk.fs.files.remove(path);
+					if let Some(r) = &root {
+						let _ = std::fs::remove_file(format!("{r}{path}"));
+					}
 					rec.event(format!("op{opi} remove {path}"));
 				}
 				Op::SetFault { fault } => {
@@ -886,9 +1127,9 @@ impl C07M1 {
 					let before = jrsonnet_evaluator::verif::file_cache_entries(&l.state);
 
 					// ---- real code
-					let actual = run_entry(&l.state, entry);
+					let actual = run_entry(&l.state, entry, root.as_deref());
 					let actual_desc = match &actual {
-						Ok(v) => format!("ok {v}"),
+						Ok(v) => format!("ok {}", show(v)),
 						Err(e) => format!("err {}", error_class(e)),
 					};
 					let fired: Vec<&'static str> = shared.borrow().disk.fired.clone();
@@ -945,7 +1186,7 @@ impl C07M1 {
 						_ => false,
 					};
 					let want_desc = |w: &Result<Value, Class>| match w {
-						Ok(v) => format!("ok {v}"),
+						Ok(v) => format!("ok {}", show(v)),
 						Err(c) => format!("err {}", c.name()),
 					};
 					// which files did the real code read in this operation (seam log)
@@ -1164,7 +1405,7 @@ impl C07M1 {
 					}
 
 					// ---- fresh-state differential (oracle 5, second opinion without the model's evaluator)
-					if plan.diff_fresh && armed.is_empty() && fired.is_empty() && !rec.violated() && l.model.resynced == 0 && l.epoch == epoch {
+					if plan.diff_fresh && root.is_none() && armed.is_empty() && fired.is_empty() && !rec.violated() && l.model.resynced == 0 && l.epoch == epoch {
 						let sticky_now = shared.borrow().disk.faults.sticky.clone();
 						if sticky_now.is_empty() {
 							// snapshot view: what this state has read wins over the disk
@@ -1188,6 +1429,7 @@ impl C07M1 {
 									},
 									rendered: rendered.clone(),
 									log: Vec::new(),
+									root: None,
 								}));
 								let ftr = Rc::new(RefCell::new(Vec::new()));
 								let mut b = State::builder();
@@ -1198,7 +1440,7 @@ impl C07M1 {
 								})
 								.context_initializer(stdlib_with_trace(ftr));
 								let fresh = b.build();
-								let fres = run_entry(&fresh, entry);
+								let fres = run_entry(&fresh, entry, None);
 								let same = match (&fres, &actual) {
 									(Ok(a), Ok(b)) => a == b,
 									(Err(a), Err(b)) => error_class(a) == error_class(b),
@@ -1213,7 +1455,7 @@ impl C07M1 {
 											"op{opi} {}: long-lived state returned `{actual_desc}`, a fresh state over the same snapshot returned `{}`",
 											snippet_for(entry),
 											match &fres {
-												Ok(v) => format!("ok {v}"),
+												Ok(v) => format!("ok {}", show(v)),
 												Err(e) => format!("err {}", error_class(e)),
 											}
 										),
@@ -1687,7 +1929,7 @@ impl Scenario for C07M1 {
 	}
 
 	fn execute(&self, plan: &Plan, rec: &mut Recorder) {
-		C07M1::exec(plan, rec);
+		C07M1::exec(plan, rec, false);
 	}
 
 	fn shrink(&self, plan: &Plan) -> Vec<Plan> {
@@ -1767,5 +2009,69 @@ impl Scenario for C07M1 {
 			}
 		}
 		out
+	}
+}
+
+/// M2: the same plans against the real `FileImportResolver` on a real scratch directory
+/// (real symlinks, dangling and self-referential links, directories as targets).
+pub struct C07M2;
+impl Scenario for C07M2 {
+	type Plan = Plan;
+	fn name(&self) -> &'static str {
+		"c07_m2"
+	}
+	fn property(&self) -> &'static str {
+		"C07"
+	}
+	fn components(&self) -> Value {
+		json!({
+			"real": ["FileImportResolver::resolve_from / check_path (metadata, canonicalize) / load_file_contents on a real scratch directory", "State::import_resolved*", "import expressions", "file cache"],
+			"stub": ["faults are injected by a pass-through resolver wrapped around the real one; vanishing/replaced files are real file operations"]
+		})
+	}
+	fn generate(&self, rng: &mut Rng, tier: Tier) -> Plan {
+		let mut p = C07M1.generate(rng, tier);
+		for op in &mut p.ops {
+			if let Op::Eval { entry, .. } = op {
+				entry.via = Via::Api;
+			}
+		}
+		p.diff_fresh = false;
+		// real-file-system oddity: a symlink that points at itself
+		if rng.chance(1, 8) {
+			p.aliases.insert("/w/loop.jsonnet".to_owned(), "/w/loop.jsonnet".to_owned());
+			let n = p.ops.len();
+			let at = rng.below(n.max(1)) + 1;
+			p.ops.insert(
+				at.min(n),
+				Op::Eval {
+					state: 0,
+					entry: Entry {
+						via: Via::Api,
+						kind: Kind::Code,
+						spelling: "loop.jsonnet".to_owned(),
+						proj: Vec::new(),
+						leaf: Leaf::Id,
+					},
+					faults: Vec::new(),
+				},
+			);
+		}
+		p
+	}
+	fn execute(&self, plan: &Plan, rec: &mut Recorder) {
+		C07M1::exec(plan, rec, true);
+	}
+	fn shrink(&self, plan: &Plan) -> Vec<Plan> {
+		C07M1
+			.shrink(plan)
+			.into_iter()
+			.filter(|p| {
+				p.ops.iter().all(|o| match o {
+					Op::Eval { entry, .. } => entry.via == Via::Api,
+					_ => true,
+				})
+			})
+			.collect()
 	}
 }
